@@ -86,6 +86,29 @@ Theorem C16_retrievable_after_set :
         get c' r h now' = Ok (Some (mkItem r h m now v)).
 Proof. exact retrievable_after_set. Qed.
 
+(* exact behaviour, for completeness of the picture: a lookup hits exactly when the (unique) entry for the key is
+   present and not older than the time limit ... *)
+Theorem C16_get_hit_iff :
+  forall (lim tl : N) (ops : list op) (c : cache) (r : list N) (h now : N) (it : item),
+    snd (run (empty lim tl) ops) = Ok c ->
+    (get c r h now = Ok (Some it) <->
+     In it (c_data c) /\ item_key it = (r, h) /\ i_time it <= now /\ now - i_time it <= tl).
+Proof. exact get_hit_iff. Qed.
+
+(* ... and a store drops entries oldest first, no more than needed for the new value to fit (counted before the old
+   entry for the same key is removed — so an overwrite may evict more than strictly necessary, which the property
+   allows), then removes the old entry for the key and appends the new one. *)
+Theorem C16_set_shape :
+  forall (lim tl : N) (ops : list op) (c : cache) (r : list N) (h : N) (v : bytes) (m now : N) (c' : cache),
+    snd (run (empty lim tl) ops) = Ok c ->
+    set c r h v m now = Ok c' ->
+    exists evicted kept,
+      c_data c = evicted ++ kept /\
+      c_data c' = remove_first (key_match r h) kept ++ [mkItem r h m now v] /\
+      total kept + blen v <= lim /\
+      (forall evicted' x, evicted = evicted' ++ [x] -> lim < ilen x + total kept + blen v).
+Proof. exact set_shape. Qed.
+
 (* (6) no_crash: under the caller's guard (every stored value fits the limit) and a non-decreasing clock, no
    history reaches data[0] on the empty deque, an out-of-range index or an arithmetic underflow. *)
 Theorem C16_no_crash :
@@ -295,6 +318,8 @@ Print Assumptions C16_every_get_in_a_run_is_latest.
 Print Assumptions C16_get_refines_abstract_map.
 Print Assumptions C16_never_other_key.
 Print Assumptions C16_retrievable_after_set.
+Print Assumptions C16_get_hit_iff.
+Print Assumptions C16_set_shape.
 Print Assumptions C16_no_crash.
 Print Assumptions C16_oversized_set_crashes.
 Print Assumptions C16_any_interleaving_no_crash.
